@@ -3,6 +3,7 @@ package props
 import (
 	"bytes"
 	"fmt"
+	"io"
 
 	"github.com/fluhus/biostuff/formats/newick"
 
@@ -377,7 +378,7 @@ func runC05(r *core.Run) {
 		var out []marshaller
 		for i, t := range nwTreePool()[:6] {
 			n := t.build()
-			out = append(out, marshaller{fmt.Sprint("pool tree ", i), n.MarshalText, func(w *bytes.Buffer) error { return n.Write(w) }})
+			out = append(out, marshaller{fmt.Sprint("pool tree ", i), n.MarshalText, func(w *bytes.Buffer) error { return n.Write(w) }, func(w io.Writer) error { return n.Write(w) }})
 		}
 		return out
 	})
